@@ -1,14 +1,14 @@
-(* C20 - history level: in a quiescent history a parameter message is only
+(* C20 - history level: in a nocross history a parameter message is only
    ever produced by a controller value whose controller has been assigned
    (a midi-use-CC for it reached the non-realtime side while an address was
    queued) *)
 From Coq Require Import List ZArith Bool Lia.
-From RtoscV Require Import Midi.MidiModel Midi.MidiSpec Midi.MidiProto Midi.MidiNrt.
+From RtoscV Require Import Midi.MidiModel Midi.MidiSpec Midi.MidiProto Midi.MidiNrt Midi.MidiHandshake.
 Import ListNotations.
 Local Open Scope Z_scope.
 
 Definition bind_in (S : list Z) (m : rmsg) : Prop :=
-  match m with RBind s => incl (mids (mapping s)) S | _ => True end.
+  match m with RBind s _ => incl (mids (mapping s)) S | _ => True end.
 
 Record HI (w : world) (S : list Z) : Prop := {
   h_n : incl (mids (omap (nstorage (wn w)))) S;
@@ -56,7 +56,7 @@ Proof.
 Qed.
 
 Lemma H_step : forall ports w S e w' o,
-  HI w S -> pre_ok w e -> step ports w e = Some (w', o) ->
+  HI w S -> pre_ok0 w e -> step ports w e = Some (w', o) ->
   HI w' (assigned_after w e S) /\
   match e with
   | ECC p _ ch n => ~ In (cc_id p ch n) S -> msgs_of o = []
@@ -102,8 +102,15 @@ Proof.
   - (* deliver to nRT *)
     destruct (chN w) as [| id rest] eqn:EN.
     + inversion Hs; subst w' o; clear Hs. split; [| reflexivity]. constructor; assumption.
-    + destruct Pre as [HQ Fresh].
-      destruct (learnQ (wn w)) as [| [a c] q] eqn:LQ; [congruence |].
+    + rename Pre into Fresh.
+      destruct (learnQ (wn w)) as [| [a c] q] eqn:LQ.
+      { (* no address waits: the unchanged mapping is sent *)
+        destruct (useFreeID_empty ports (wn w) id LQ) as [s' [E Ms]].
+        rewrite E in Hs. cbn [nrt_result] in Hs. inversion Hs; subst w' o; clear Hs.
+        split; [| reflexivity].
+        constructor; cbn [wn wr chR nstorage omap]; try assumption.
+        - rewrite Ms. assumption.
+        - apply Forall_app. split; [assumption |]. constructor; [| constructor]. cbn. rewrite Ms. assumption. }
       unfold nrt_result in Hs.
       destruct (nrt_useFreeID ports (wn w) id) as [[n' out] |] eqn:UF; [| discriminate].
       inversion Hs; subst w' o; clear Hs.
@@ -128,29 +135,29 @@ Proof.
       { destruct m; cbn [rt_deliver] in D.
         - inversion D; subst; assumption.
         - inversion D; subst; assumption.
-        - destruct (deliver_bind_fact _ _ _ D) as [E _]. rewrite E. exact Hm. }
+        - destruct (deliver_bind_fact _ _ _ _ D) as [E _]. rewrite E. exact Hm. }
       destruct (chN w); constructor; cbn [wn wr chR]; assumption.
 Qed.
 
 Lemma silent_from : forall ports evs w S,
-  fresh_run ports w evs -> HI w S -> silent_run ports w S evs.
+  fresh_run0 ports w evs -> HI w S -> silent_run ports w S evs.
 Proof.
   induction evs as [| e es IH]; intros w S F Hh; [exact I |].
-  cbn [fresh_run] in F. destruct F as [Pre F]. cbn [silent_run].
+  cbn [fresh_run0] in F. destruct F as [Pre F]. cbn [silent_run].
   destruct (step ports w e) as [[w' o] |] eqn:St; [| exact I].
   destruct (H_step _ _ _ _ _ _ Hh Pre St) as [Hh' Sil].
   split; [exact Sil | apply IH; assumption].
 Qed.
 
-(* quiescent history: every parameter message comes from a controller value
-   whose controller was assigned before; no other event produces one *)
-Theorem quiescent_silent : forall ports evs tr fin U,
+(* every history, whatever the delivery order: every parameter message comes
+   from a controller value whose controller was assigned before; no other
+   event produces one *)
+Theorem silent_all : forall ports evs U,
   (length U <= 32)%nat -> incl (ccids evs) U -> Forall (fun x => 0 <= x) (ccids evs) ->
-  run ports world0 evs = (tr, fin) -> quiescent evs tr = true ->
   silent_run ports world0 [] evs.
 Proof.
-  intros ports evs tr fin U US Hi Hp Hr Hq.
+  intros ports evs U US Hi Hp.
   apply silent_from.
-  - eapply quiescent_fresh; eassumption.
+  - eapply learn_once; eassumption.
   - constructor; cbn; try (intros x []); constructor.
 Qed.
